@@ -408,6 +408,25 @@ def edited_description(si, live, w, h, bad):
     if not victims:
         return
     v = victims[-1]
+    # in place: one chip's set of links and list of core states are that
+    # chip's own (another chip with the same pattern keeps its own)
+    others = {xy: (set(si[xy].working_links), list(si[xy].core_states))
+              for xy in si if xy != v}
+    try:
+        if isinstance(si[v].working_links, set) and si[v].working_links:
+            si[v].working_links.discard(sorted(si[v].working_links)[0])
+        if isinstance(si[v].core_states, list) and si[v].core_states:
+            si[v].core_states[-1] = si[v].core_states[0]
+    except Exception:
+        pass
+    for xy, (wl, cs) in others.items():
+        if set(si[xy].working_links) != wl or list(si[xy].core_states) != cs:
+            bad("description_aliased", "editing the entry of chip %r in "
+                "place changed the entry of chip %r: links %r -> %r"
+                % (v, xy, sorted(wl), sorted(si[xy].working_links)))
+            return
+    if not agree("after removing a link of chip %r in place" % (v,)):
+        return
     old = si[v]
     del si[v]
     if not agree("after removing chip %r from the description" % (v,)):
